@@ -448,6 +448,10 @@ type c01PatchCase struct {
 	Value Val    `json:"value"` // K=="" → nil value
 	Index int    `json:"index"`
 	Pkg   bool   `json:"pkg"` // use the package-level wrapper
+	// Namesake: replace the value by an (empty) message of ANOTHER type with the same short
+	// name as the target's (Person.GenderCode for Patient.gender, Organization.Contact for
+	// Patient.contact), resolved at run time from the path's first result
+	Namesake int `json:"namesake,omitempty"`
 }
 
 var c01PatchValues = []Val{{}, fv("string", "x"), fv("code", "official"), fv("code", "not-a-code"), fv("code", "Bad Code"), fv("integer", "5"), fv("integer", "-5"), fv("positiveInt", "3"), fv("unsignedInt", "0"), fv("boolean", "true"), fv("decimal", "1.5"), fv("date", "2020-01-01"), fv("dateTime", "2020-01-01T10:00:00Z"), fv("uri", "http://x"), fv("id", "abc"), fv("markdown", "m"), fv("base64Binary", "aGk=")}
@@ -468,6 +472,9 @@ func c01GenPatch(s Src) c01PatchCase {
 	c.Value = pickOne(s, c01PatchValues)
 	if s.Prob(35) {
 		c.Value = pickOne(s, poolComplex)
+	}
+	if s.Prob(12) {
+		c.Namesake = 1 + s.Intn(50)
 	}
 	c.Index = pickOne(s, []int{-2, -1, 0, 1, 2, 3, 4, 1 << 31, -(1 << 31), 1<<62 - 1})
 	c.Name = pickOne(s, []string{"name", "given", "family", "active", "telecom", "birthDate", "deceased", "extension", "value", "use", "gender", "birth_date", "zzNope", "", "id", "contained", "rank", "identifier", "reference", "managingOrganization", "Name", "valueUs"})
@@ -501,6 +508,44 @@ func c01GenPatch(s Src) c01PatchCase {
 	default:
 		c.Path = pickOne(s, []string{typ, "Patient.name", "Patient.name[0].given", "Patient.name.where(use = 'official')", "Patient.active", "Patient.deceased", "Patient.zzNope", "1", "'x'", "{}", "Patient.name.count()", "%context", "Patient.name.given.first()", "Patient.contained", "Patient.extension('http://example.org/a')", "Patient.extension[0].value", "$this", "Patient.name.select(given)", "Patient.managingOrganization.reference", "Patient.gender", "Patient.telecom.rank", "((", "Patient.name.first().given.last()", "Patient.link.other", "today()", "Patient.name | Patient.name"})
 	}
+	// a namesake value needs a target whose type has one: aim at such a node (replace/insert/
+	// delete) or at a parent with such a field (add)
+	if c.Namesake != 0 && res != nil {
+		if root, _, err := buildTree(res); err == nil {
+			type tgt struct{ path, name string }
+			var tgts []tgt
+			visit := func(n *Node) {
+				if n.Msg == nil || n.Synth || n.ViaAny {
+					return
+				}
+				md := n.Msg.ProtoReflect().Descriptor()
+				path := typ
+				if pn := n.pathNames(); len(pn) > 0 {
+					path += "." + strings.Join(pn, ".")
+				}
+				if n != root && namesakeOf(md, 0) != nil {
+					tgts = append(tgts, tgt{path, ""})
+				}
+				fs := md.Fields()
+				for i := 0; i < fs.Len(); i++ {
+					if fm := fs.Get(i).Message(); fm != nil && namesakeOf(fm, 0) != nil {
+						tgts = append(tgts, tgt{path, fs.Get(i).JSONName()})
+					}
+				}
+			}
+			visit(root)
+			root.walk(visit)
+			if len(tgts) > 0 {
+				t := pickOne(s, tgts)
+				c.Path = t.path
+				if t.name != "" {
+					c.Op, c.Name = "add", t.name
+				} else {
+					c.Op = pickOne(s, []string{"replace", "replace", "insert"})
+				}
+			}
+		}
+	}
 	return c
 }
 
@@ -527,6 +572,29 @@ func c01RunPatch(ctx *Ctx, c c01PatchCase) {
 			value = b
 		} else {
 			value = &dtpb.String{Value: fmt.Sprint(v)}
+		}
+	}
+	if c.Namesake != 0 && res != nil {
+		if out := evalWith(c.Path, []fhir.Resource{res}, nil); !out.failed() && len(out.Coll) > 0 {
+			if m, ok := out.Coll[0].(proto.Message); ok {
+				md := m.ProtoReflect().Descriptor()
+				if c.Op == "add" {
+					md = nil
+					if f := m.ProtoReflect().Descriptor().Fields().ByJSONName(c.Name); f != nil && f.Message() != nil {
+						md = f.Message()
+					}
+				}
+				if md != nil {
+					if ns := namesakeOf(md, c.Namesake); ns != nil {
+						if nm := dynamicNew(ns); nm != nil {
+							if b, ok := nm.Interface().(fhir.Base); ok {
+								value = b
+								ctx.Count("patch_namesake_values")
+							}
+						}
+					}
+				}
+			}
 		}
 	}
 	var err error
